@@ -88,6 +88,12 @@ pub fn run_case(case: &Case) -> (Vec<(String, String)>, CaseInfo) {
             // C04's finding and this history stops being explored here
             let after = block_on(snapshot(&d.node, max_id));
             if !snapshot_diff(&before, &after).is_empty() {
+                // that the state moved at all is C04's subject; whether the state the node is left in
+                // still describes one chain is this check's
+                for (suffix, what) in check_consistency(&d.node, &table, max_id) {
+                    let key = if orphan_seen { "C03|orphan_path".to_string() } else { format!("C03|{}|ctx=after_rejected_delivery", suffix) };
+                    viols.push((key, format!("after the rejected delivery of block idx {} id {}: {}", idx, b.id, what)));
+                }
                 info.dead = Some("rejected_block_left_trace".into());
                 d.dead = true;
             }
